@@ -19,7 +19,7 @@ def run(ctx):
     plan = "all:2,2,2;rand:3,3,2:%d;rand:4,3,3:%d" % ((40, 10) if quick else (600, 150))
     plan += ";extall:2,2,2;ext:3,3,2:%d;ext:4,3,3:%d" % ((25, 6) if quick else (300, 80))
     solids.judge_stage(ctx, "voxel", ["c07-voxel", "kinds=sdf", "derived=1", "plan=" + plan, "sdf=%d" % (60 if quick else 150)],
-                       {"panic", "sdf-sign", "sdf-dist", "sdf-point", "sdf-normal"}, judge="geom/VoxelJudge", timeout=3000)
+                       {"panic", "sdf-sign", "sdf-dist", "sdf-point", "sdf-normal", "concurrent"}, judge="geom/VoxelJudge", timeout=3000)
     import c06_prims
     c06_prims.run(ctx)
     # 2-D mesh fields (MeshToSDF, GroupedSegmentsToSDF) on pixel worlds and integer polygons: exact rational squared
